@@ -16,16 +16,16 @@ import (
 // The listening-stream table is discovered as the map field whose values are pointers to a
 // record holding a context.CancelFunc (one open stream per key).
 //
-//   R-remove-self-only  in the function that registers a fresh record in the table and later removes
-//                       it (the stream's own tear-down), the delete is reachable only through the true
-//                       edge of an identity comparison "table[key] == this record", evaluated in the
-//                       same critical section as the delete
-//   R-replace-atomic    looking up the old record, cancelling it and storing the new one happen in one
-//                       critical section of the table lock, and the old record IS cancelled
-//   R-table-locked      every access to the table holds the table's lock (writes exclusively)
-//   R-foreign-delete    any other function that deletes from the table cancels the record it removes
-//                       (session termination), and never deletes on a mere write failure of a stream
-//   R-slot-owner        (client) a stream goroutine touches the shared stream slot only while it still owns it
+//	R-remove-self-only  in the function that registers a fresh record in the table and later removes
+//	                    it (the stream's own tear-down), the delete is reachable only through the true
+//	                    edge of an identity comparison "table[key] == this record", evaluated in the
+//	                    same critical section as the delete
+//	R-replace-atomic    looking up the old record, cancelling it and storing the new one happen in one
+//	                    critical section of the table lock, and the old record IS cancelled
+//	R-table-locked      every access to the table holds the table's lock (writes exclusively)
+//	R-foreign-delete    any other function that deletes from the table cancels the record it removes
+//	                    (session termination), and never deletes on a mere write failure of a stream
+//	R-slot-owner        (client) a stream goroutine touches the shared stream slot only while it still owns it
 func init() { Registry["C11"] = checkC11 }
 
 func isCancelFunc(t types.Type) bool { return ir.TypeStr(t) == "context.CancelFunc" }
